@@ -114,7 +114,10 @@ def chunk(da, chunks):
     return da.chunk(c)
 
 
-def lazy_vs_eager(call, inputs, chunks, scheduler, allowed_notimpl, what, ctx=None, eager_call=None):
+def lazy_vs_eager(call, inputs, chunks, scheduler, allowed_notimpl, what, ctx=None, eager_call=None, sibling=None):
+    """sibling: optional second call on the same inputs that differs only in the boundary treatment; its lazy result is
+    computed *together with* the first one in a single graph (dask.compute(a, b)) and both must still equal their
+    in-memory counterparts."""
     """call(*arrays) -> result.  inputs: list of DataArrays (in memory)."""
     import dask
 
@@ -139,6 +142,25 @@ def lazy_vs_eager(call, inputs, chunks, scheduler, allowed_notimpl, what, ctx=No
                         frame=innermost_xgcm_frame(e), chunks=chunks)
     if counter.n != 0:
         raise Violation(f"{what}: building the lazy result triggered {counter.n} computation(s)", chunks=chunks)
+    if sibling is not None:
+        try:
+            eager2 = sibling(*inputs)
+            with dask.config.set(scheduler=counter):
+                lazy2 = sibling(*lazy_in)
+        except Exception:  # noqa: BLE001 - the sibling is only an extra probe
+            eager2 = lazy2 = None
+        if lazy2 is not None and not isinstance(lazy, (tuple, list)) and dask.is_dask_collection(lazy.data) and dask.is_dask_collection(lazy2.data):
+            try:
+                with dask.config.set(scheduler=scheduler):
+                    c1, c2 = dask.compute(lazy, lazy2)
+            except Exception as e3:  # noqa: BLE001
+                raise Violation(f"{what}: computing two lazy results together raised", exception=type(e3).__name__, message=str(e3)[:200], chunks=chunks)
+            for nm_, c, e in (("first", c1, eager), ("second", c2, eager2)):
+                ev, cv = np.asarray(e.values), np.asarray(c.values)
+                scale = max(1.0, float(np.nanmax(np.abs(ev), initial=0.0))) if ev.size else 1.0
+                if cv.shape != ev.shape or not np.allclose(cv, ev, rtol=1e-10, atol=1e-12 * scale, equal_nan=True):
+                    raise Violation(f"{what}: two lazy results that differ only in the boundary treatment, computed in one graph, do not both "
+                                    "equal their in-memory results", which=nm_, chunks=chunks)
     outs_l = lazy if isinstance(lazy, (tuple, list)) else [lazy]
     outs_e = eager if isinstance(eager, (tuple, list)) else [eager]
     for l, e in zip(outs_l, outs_e):
@@ -232,7 +254,9 @@ def run_stencil(sub, chunks, scheduler, classes, ctx):
     targets = targets_of(sub)
     core_chunked = any(len(chunks.get(gen.dim_name(n, sub["data_pos"][n]), [1])) > 1 for n in sub["op_axes"])
     classes.append("core-chunked" if core_chunked else "broadcast-chunked-only")
-    return lazy_vs_eager(lambda x: fn(x, ax, **kw), [da], chunks, scheduler, operated_inner_outer_chunked(sub, chunks, targets), f"Grid.{sub['op']}")
+    kw2 = dict(kw, boundary="fill", fill_value=123.0) if kw.get("boundary") != "fill" or kw.get("fill_value") != 123.0 else dict(kw, boundary="extend")
+    return lazy_vs_eager(lambda x: fn(x, ax, **kw), [da], chunks, scheduler, operated_inner_outer_chunked(sub, chunks, targets), f"Grid.{sub['op']}",
+                         sibling=lambda x: fn(x, ax, **kw2))
 
 
 def run_cumsum(sub, chunks, scheduler, classes, ctx):
@@ -324,7 +348,9 @@ def run_ufunc(sub, chunks, scheduler, classes, ctx):
     # the in-memory reference is the same ufunc applied without dask options
     eager = lambda x: grid.apply_as_grid_ufunc(f, x, axis=[tuple(opax)], signature=sig, boundary_width=bw,  # noqa: E731
                                                boundary=sub["boundary"], fill_value=sub["fill"])
-    return lazy_vs_eager(call, [da], ch, scheduler, False, f"apply_as_grid_ufunc[{mode}]", eager_call=eager)
+    other = "extend" if sub["boundary"] != "extend" else "periodic"
+    sib = lambda x: grid.apply_as_grid_ufunc(f, x, axis=[tuple(opax)], signature=sig, boundary_width=bw, boundary=other, **kw)  # noqa: E731
+    return lazy_vs_eager(call, [da], ch, scheduler, False, f"apply_as_grid_ufunc[{mode}]", eager_call=eager, sibling=sib)
 
 
 def run_faces_scalar(sub, chunks, scheduler, classes, ctx):
